@@ -354,4 +354,18 @@ Fixpoint run (dest source : list N) (s : mstate) (sched : list item) : option (m
         match run dest source s' rest with Some (s'', out') => Some (s'', out ++ out') | None => None end
       else None
   end.
+
+(** source(callsign) / dest(callsign) assign source_ / dest_ (used by send_link_setup only).  Called between schedules while
+    the modulator thread runs: a configured schedule is a list of segments, each run with the pair configured before it, from
+    the state the previous one left - including the LICH segments, audio buffer and counters of earlier key-ups. *)
+Fixpoint run_segments (s : mstate) (segs : list (list N * list N * list item)) : option (mstate * list N) :=
+  match segs with
+  | [] => Some (s, [])
+  | (dest, source, sched) :: rest =>
+      match run dest source s sched with
+      | Some (s', out) =>
+          match run_segments s' rest with Some (s'', out') => Some (s'', out ++ out') | None => None end
+      | None => None
+      end
+  end.
 End Modulator.
